@@ -42,7 +42,9 @@ func Register() {
 		// the service / feed chain of events (price feed, bindings priced through it) is long;
 		// give it a larger share of the operations here
 		Weights: map[string]int{"service": 30, "oraclefeed": 30, "random": 20},
-		Groups:  groups,
+		// what C11 names (host clock, map order, floating point, process-local caches) lives
+		// mostly in service and oracle: their group is drawn more often here
+		Groups: append([][]string{{"service", "oraclefeed"}, {"service", "oraclefeed"}, {"service", "oraclefeed", "random"}}, groups...),
 		Mods:    mixed(func() engine.Module { return NewReplicas() })})
 	engine.RegisterProfile(&engine.Profile{Name: "mixed-export", Tune: tune, Groups: groups,
 		Mods: mixed(func() engine.Module { return NewExporter() })})
